@@ -45,7 +45,8 @@ RULE = ('chains of 1..3 planes on a fresh Wavefront: amplitude/OPD/mask each sca
         '1e-3, 5e-6, 4e-9 (scalar and per-axis, one axis equal): refused exactly when unequal as floats; lentil.Tilt planes and tilted incoming wavefronts in the chains, the input '
         'wavefront looked at again afterwards; masks as float/int/bool/uint8; plane-object histories: 2-4 multiplies on ONE '
         'plane with amplitude/opd/mask updates (setter and in place) and repeated/different wavelengths, each compared with '
-        'the plane\'s CURRENT attributes; non-trivial = at least one array attribute and (two planes or a cube)')
+        'the plane\'s CURRENT attributes; constructor calls looked at right after construction (amplitude= and amp= alone and together incl. 1 in several spellings and 1x1 arrays, masks of rank 0/2/3/4, masks without a set sample: outcome or exception, amplitude, opd, mask, shape, size, global_mask, pixelscale, focal_length, caller memory); '
+        'Wavefront(..., tilt=) with 0..4 entries as list/tuple/ndarray; every chain in one of the spellings w*p / p*w / p.multiply(w); non-trivial = at least one array attribute and (two planes or a cube)')
 
 LAM = Fraction(1, 2 ** 20)
 
@@ -328,6 +329,8 @@ def rnd_case(rng, maxn):
         for pl in planes:
             if pl['kind'] != 'Tilt':
                 pl['aform'] = form
+    # the three spellings of one multiplication: wavefront * plane, plane * wavefront (Wavefront.__rmul__), plane.multiply
+    c['callform'] = rng.choice(['w*p', 'w*p', 'p*w', 'multiply', 'mixed'])
     if rng.random() < 0.15:
         for pl in planes:
             if pl['kind'] != 'Tilt':
@@ -533,7 +536,69 @@ def rnd_pixchain(rng):
     return c
 
 
+def rnd_ctor(rng):
+    """Plane(...) / Pupil(...) looked at right after construction: both spellings of the amplitude keyword (and both at
+    once), masks of rank 0/2/3/4, masks without a set sample, and the attributes amplitude/opd/mask/shape/size/
+    global_mask/pixelscale/focal_length"""
+    pl, (n, m) = rnd_plane(rng, 1, 5)
+    pl['tilt'] = []
+    pl['pix'] = rnd_pix(rng)
+    if rng.random() < 0.4:
+        pl['kind'] = 'Pupil'
+        pl['focal'] = rng.choice([None, '2', '1/2', '0'])
+    if rng.random() < 0.3:
+        pl['opd'] = ({'a': [[rng.randint(-3, 5) for _ in range(m)] for _ in range(n)]} if rng.random() < 0.6
+                     else {'s': rng.randint(-3, 5)})
+    c = {'op': 'ctor', 'L': 1, 'lam': str(LAM), 'plane': pl, 'alias': None, 'given': 'kw'}
+    t = rng.random()
+    if t < 0.45:
+        # amp= next to amplitude (omitted, 1 in several spellings, a 1x1 array, another scalar, a larger array)
+        c['alias'] = pl['amp']
+        u = rng.random()
+        if u < 0.25:
+            pl['amp'], c['given'] = {'s': [1, 0]}, 'omit'
+        elif u < 0.45:
+            pl['amp'], c['given'] = {'s': [1, 0]}, rng.choice(['int', 'float', 'np', 'bool', '0d'])
+        elif u < 0.6:
+            pl['amp'] = {'a': [[[rng.choice([1, 1, 2, 0]), 0]]]}
+        elif u < 0.85:
+            pl['amp'] = {'s': rng.choice([[2, 0], [0, 0], [-1, 0], [1, 1], [3, -2]])}
+        else:
+            pl['amp'] = {'a': [[rnd_gauss(rng) for _ in range(m)] for _ in range(n)]}
+    elif t < 0.55:
+        pl['mask'] = {'r4': [rng.randint(1, 2), rng.randint(1, 2), n, m]}
+    elif t < 0.7:
+        # no set sample: an all-zero 2-d mask, a cube with an empty layer, or no mask and an all-zero amplitude
+        u = rng.random()
+        if u < 0.4:
+            pl['mask'] = {'a': [[[0, 0] for _ in range(m)] for _ in range(n)]}
+        elif u < 0.75:
+            full = [[[1, 0] for _ in range(m)] for _ in range(n)]
+            empty = [[[0, 0] for _ in range(m)] for _ in range(n)]
+            ly = [full, empty] if rng.random() < 0.5 else [empty, full, full]
+            pl['mask'] = {'c': ly}
+        else:
+            pl['mask'] = None
+            pl['amp'] = {'a': [[[0, 0] for _ in range(m)] for _ in range(n)]}
+    if rng.random() < 0.25:
+        pl['aform'] = rng.choice(SUBFORMS)
+    return c
+
+
+def rnd_wctor(rng):
+    """Wavefront(wavelength, pixelscale, focal_length, tilt=...) with tilt arguments of 0..4 entries in several forms"""
+    k = rng.choice([None, 0, 1, 2, 2, 2, 3, 4])
+    tilt = None if k is None else [str(Fraction(rng.randint(-6, 6), 8)) for _ in range(k)]
+    return {'op': 'wctor', 'L': 1, 'lam': str(LAM * rng.choice([1, 2, 3])), 'wpix': rnd_pix(rng),
+            'wfocal': rng.choice([None, None, '3', '0', '1/2']), 'tilt': tilt,
+            'tform': rng.choice(['list', 'tuple', 'ndarray'])}
+
+
 def generate(rng, tier):
+    for _ in range(40 if tier == 'quick' else 500):
+        yield rnd_ctor(rng)
+    for _ in range(16 if tier == 'quick' else 200):
+        yield rnd_wctor(rng)
     for _ in range(60 if tier == 'quick' else 600):
         yield rnd_pixchain(rng)
     for _ in range(40 if tier == 'quick' else 500):
@@ -573,6 +638,13 @@ def bridge_kind(c):
 
 
 def classify(c):
+    if c['op'] == 'ctor':
+        pl = c['plane']
+        mk = pl['mask']
+        return ('ctor/' + ('alias-' + c['given'] + '-' + ('A' if 'a' in pl['amp'] else 'a') if c['alias'] is not None else 'plain')
+                + '/' + ('none' if mk is None else 's' if 's' in mk else '2d' if 'a' in mk else 'cube' if 'c' in mk else 'rank4'))
+    if c['op'] == 'wctor':
+        return f'wctor/{"none" if c["tilt"] is None else len(c["tilt"])}/{c["tform"]}'
     if c['op'] == 'phist':
         return 'phist/' + '-'.join(a['a'] if a['a'] != 'mul' else f'mul{a["m"]}{a["src"][0]}' for a in c['acts'])
     if c['op'] == 'views':
@@ -586,7 +658,7 @@ def classify(c):
 
 
 def nontrivial(c):
-    if c['op'] == 'phist':
+    if c['op'] in ('phist', 'ctor', 'wctor'):
         return True
     if c['op'] == 'views':
         return len(c['fs']) > 1
@@ -637,6 +709,8 @@ def enc_opd(opd, L, lam):
 def enc_mask(mk):
     if mk is None:
         return [0]
+    if 'r4' in mk:
+        return [4]
     if 's' in mk:
         return [1] + C.enc_c((F(mk['s'][0]), F(mk['s'][1])))
     if 'a' in mk:
@@ -681,6 +755,16 @@ def encode_phist(c):
 def encode(c):
     if c['op'] == 'phist':
         return encode_phist(c)
+    if c['op'] == 'ctor':
+        pl, lam = c['plane'], F(c['lam'])
+        out = [6, 1, 0 if pl['kind'] == 'Plane' else 1] + enc_amp(pl['amp'])
+        out += C.enc_opt(c['alias'], enc_amp)
+        out += enc_opd(pl['opd'], 1, lam) + enc_mask(pl['mask']) + enc_pix(pl['pix'])
+        out += C.enc_opt(pl['focal'] if pl['kind'] == 'Pupil' else None, lambda f: C.enc_q(float(F(f))))
+        return out
+    if c['op'] == 'wctor':
+        out = [7, 1] + C.enc_q(F(c['lam'])) + enc_pix(c['wpix']) + C.enc_opt(c['wfocal'], lambda f: C.enc_q(float(F(f))))
+        return out + C.enc_opt(c['tilt'], lambda t: [len(t)] + [x for q in t for x in C.enc_q(float(F(q)))])
     if c['op'] == 'views':
         out = [3, 1] + list(c['shape']) + [len(c['fs'])]
         for f in c['fs']:
@@ -736,10 +820,54 @@ def read_wf(rd, L):
     return {'lam': lam, 'pix': pix, 'focal': focal, 'shape': shape, 'fields': fields, 'field': fv, 'intensity': iv}
 
 
+def read_plane(rd, L):
+    tag = rd.z()
+    amp = {'v': C.kval(rd.k(), L)} if tag == 0 else {'arr': [[C.kval(v, L) for v in row] for row in rd.arr()]}
+
+    def gb():
+        n, m = rd.z(), rd.z()
+        return [[rd.z() for _ in range(m)] for _ in range(n)]
+    if rd.z() == 0:
+        opd = {'v': rd.q()}
+    else:
+        n, m = rd.z(), rd.z()
+        opd = {'arr': [[rd.q() for _ in range(m)] for _ in range(n)]}
+    tag = rd.z()
+    if tag == 0:
+        mask = {'rank': 0, 'vals': rd.z()}
+    elif tag == 2:
+        mask = {'rank': 2, 'vals': gb()}
+    else:
+        n, m = rd.z(), rd.z()
+        mask = {'rank': 3, 'vals': rd.lst(gb), 'dims': [n, m]}
+    shape = rd.opt(lambda: [rd.z(), rd.z()])
+    size = rd.z()
+    if shape is None:
+        gm = rd.z()
+    else:
+        gm = [[rd.z() for _ in range(shape[1])] for _ in range(shape[0])]
+    pix = rd.opt(lambda: [rd.q(), rd.q()])
+
+    def foc():
+        t = rd.z()
+        return 'inf' if t == 0 else (None if t == 1 else rd.q())
+    focal = rd.opt(lambda: {'f': foc()})          # None: a plain Plane (no focal_length attribute)
+    ntilt = rd.z()
+    return {'amp': amp, 'opd': opd, 'mask': mask, 'shape': shape, 'size': size, 'gmask': gm, 'pix': pix,
+            'focal': focal, 'ntilt': ntilt}
+
+
 def decode(c, ints):
     L = c['L']
     rd = C.Reader(ints, L)
     st = rd.z()
+    if c['op'] in ('ctor', 'wctor'):
+        if st == 1:
+            res = {'err': C.ERRNAMES[rd.z()]}
+        else:
+            res = read_plane(rd, L) if c['op'] == 'ctor' else read_wf(rd, L)
+        assert rd.done()
+        return res
     if c['op'] == 'phist':
         if st == 1:
             return {'err': C.ERRNAMES[rd.z()]}
@@ -993,8 +1121,102 @@ def run_phist(c):
     return {'muls': res, 'inputs': {str(m): observe(w) for m, w in inputs.items()}}
 
 
+def observe_plane(p):
+    def arr_or_val(a):
+        a = plain(a)
+        if a.ndim == 0:
+            return {'v': complex(a)}
+        if a.ndim == 2:
+            return {'arr': [[complex(v) for v in row] for row in a.tolist()]}
+        return {'ndim': int(a.ndim)}
+    mk = plain(p.mask)
+    binary = bool(np.all((mk == 0) | (mk == 1)))
+    nzm = (mk != 0).astype(int)
+    gm = plain(p.global_mask)
+    shape = tuple(p.shape)
+    fl = getattr(p, 'focal_length', 'absent')
+    return {'amp': arr_or_val(p.amplitude), 'opd': arr_or_val(p.opd),
+            'mask': {'rank': int(mk.ndim), 'vals': nzm.tolist(), 'binary': binary},
+            'shape': None if shape == () else [int(x) for x in shape], 'size': int(p.size),
+            'gmask': gm.astype(complex).real.tolist(), 'gm_imag': bool(np.any(gm.astype(complex).imag != 0)),
+            'pix': None if p.pixelscale is None else [C.frac(float(p.pixelscale[0])), C.frac(float(p.pixelscale[1]))],
+            'focal': None if fl == 'absent' else {'f': None if fl is None else ('inf' if math.isinf(fl) else C.frac(float(fl)))},
+            'ntilt': len(p.tilt)}
+
+
+def amp_value(amp, form=None):
+    if 'a' in amp:
+        return subclass_form(np_attr(amp['a']), form)
+    z = cnum(amp['s'])
+    return z.real if z.imag == 0 else z
+
+
+def run_ctor(c):
+    lentil = C.import_lentil()
+    pl, lam = c['plane'], F(c['lam'])
+    form = pl.get('aform')
+    kw, keep = {}, []
+    if c['given'] != 'omit':
+        if c['alias'] is not None and 's' in pl['amp'] and c['given'] != 'kw':
+            kw['amplitude'] = {'int': 1, 'float': 1.0, 'np': np.float64(1.0), 'bool': True, '0d': np.array(1.0)}[c['given']]
+        else:
+            # next to amp= the amplitude argument is a plain ndarray (its comparison with 1 decides, not its class)
+            kw['amplitude'] = amp_value(pl['amp'], None if c['alias'] is not None else form)
+    if c['alias'] is not None:
+        kw['amp'] = amp_value(c['alias'], form)
+    opd, mk = pl['opd'], pl['mask']
+    if 'a' in opd:
+        kw['opd'] = subclass_form(np.array([[float(F(k) * lam) for k in row] for row in opd['a']], dtype=float), form)
+    else:
+        kw['opd'] = float(F(opd['s']) * lam)
+    if mk is not None:
+        if 's' in mk:
+            kw['mask'] = cnum(mk['s']).real
+        elif 'a' in mk:
+            kw['mask'] = subclass_form(np_mask(mk['a'], pl.get('mdtype', 'float')), form)
+        elif 'c' in mk:
+            kw['mask'] = subclass_form(np.array([np_mask(a, pl.get('mdtype', 'float')) for a in mk['c']]),
+                                       form if form != 'matrix' else None)
+        else:
+            kw['mask'] = np.ones(tuple(mk['r4']))
+    for name in ('amplitude', 'amp', 'opd', 'mask'):
+        if isinstance(kw.get(name), np.ndarray) and kw[name].ndim > 0:
+            keep.append((name, kw[name], plain(kw[name]),
+                         None if not isinstance(kw[name], np.ma.MaskedArray) else np.array(np.ma.getmaskarray(kw[name]))))
+    kw['pixelscale'] = mk_pix(pl['pix'])
+    try:
+        if pl['kind'] == 'Pupil':
+            kw['focal_length'] = None if pl['focal'] is None else float(F(pl['focal']))
+            p = lentil.Pupil(**kw)
+        else:
+            p = lentil.Plane(**kw)
+    except Exception as e:
+        return {'err': type(e).__name__, 'memory': memory_changed(keep)}
+    res = observe_plane(p)
+    res['memory'] = memory_changed(keep)
+    return res
+
+
+def run_wctor(c):
+    lentil = C.import_lentil()
+    t = c['tilt']
+    if t is not None:
+        t = [float(F(q)) for q in t]
+        t = {'list': list, 'tuple': tuple, 'ndarray': lambda x: np.array(x, dtype=float)}[c['tform']](t)
+    try:
+        w = lentil.Wavefront(wavelength=float(F(c['lam'])), pixelscale=mk_pix(c['wpix']),
+                             focal_length=None if c['wfocal'] is None else float(F(c['wfocal'])), tilt=t)
+    except Exception as e:
+        return {'err': type(e).__name__}
+    return observe(w)
+
+
 def run_impl(c):
     lentil = C.import_lentil()
+    if c['op'] == 'ctor':
+        return run_ctor(c)
+    if c['op'] == 'wctor':
+        return run_wctor(c)
     if c['op'] == 'phist':
         return run_phist(c)
     if c['op'] == 'views':
@@ -1016,7 +1238,10 @@ def run_impl(c):
     for k, pl in enumerate(c['planes']):
         try:
             p = mk_plane(pl, L, lam, keep)
-            w = w * p
+            cf = c.get('callform', 'w*p')
+            if cf == 'mixed':
+                cf = ['w*p', 'p*w', 'multiply'][k % 3]
+            w = (p * w) if cf == 'p*w' else (p.multiply(w) if cf == 'multiply' else w * p)
         except Exception as e:
             res['err'] = {'step': k, 'err': type(e).__name__}
             res['input_after'] = observe(w0)
@@ -1096,8 +1321,51 @@ def compare_phist(c, impl, model):
     return None
 
 
+def cmp_wf(a, b, tf, ti, what):
+    for key in ('lam', 'pix', 'focal', 'shape'):
+        if a[key] != b[key]:
+            return f'{what}: {key} is {a[key]}, model {b[key]}'
+    ta = sorted((f['ext'], f['tilt']) for f in a['fields'])
+    tb = sorted((f['ext'], f['tilt']) for f in b['fields'])
+    if ta != tb:
+        return f'{what}: extents/tilt lists of the fields differ: {ta} vs model {tb}'
+    return cmp_view(a['field'], b['field'], tf, f'{what} field') or cmp_view(a['intensity'], b['intensity'], ti, f'{what} intensity')
+
+
+def compare_ctor(c, impl, model):
+    if 'err' in impl or 'err' in model:
+        if impl.get('err') != model.get('err'):
+            return f'constructor: implementation {impl.get("err", "built a plane")}, model {model.get("err", "built a plane")}'
+        return None
+    if c['op'] == 'wctor':
+        return cmp_wf(impl, model, 0.0, 1e-12, 'new wavefront')
+    m = cmp_view(impl['amp'], model['amp'], 0.0, 'amplitude')
+    if m:
+        return m
+    a, b = impl['opd'], model['opd']
+    if ('v' in a) != ('v' in b):
+        return 'opd: dimensionality differs'
+    if 'v' in a:
+        if C.frac(a['v'].real) != b['v']:
+            return f'opd: {a["v"]} vs model {b["v"]}'
+    elif [[C.frac(v.real) for v in row] for row in a['arr']] != b['arr']:
+        return 'opd: samples differ from the model'
+    if impl['mask']['rank'] != model['mask']['rank'] or impl['mask']['vals'] != model['mask']['vals']:
+        return f'mask: non-zero pattern {impl["mask"]["vals"]} (rank {impl["mask"]["rank"]}), model {model["mask"]["vals"]} (rank {model["mask"]["rank"]})'
+    if not impl['mask']['binary']:
+        return 'mask: stored values other than 0 and 1'
+    for key in ('shape', 'size', 'pix', 'focal', 'ntilt'):
+        if impl[key] != model[key]:
+            return f'{key} is {impl[key]}, model {model[key]}'
+    if impl['gm_imag'] or impl['gmask'] != model['gmask']:
+        return f'global_mask is {impl["gmask"]}, model {model["gmask"]}'
+    return None
+
+
 def compare(c, impl, model):
     tf, ti = tols(c)
+    if c['op'] in ('ctor', 'wctor'):
+        return compare_ctor(c, impl, model)
     if c['op'] == 'phist':
         return compare_phist(c, impl, model)
     if c['op'] == 'views':
@@ -1244,9 +1512,116 @@ def oracle_phist(c, impl):
     return None
 
 
+def oracle_ctor(c, impl):
+    """the constructor's contract written out directly: amp= is the same keyword as amplitude= (both at once, with an
+    amplitude other than the default, is a TypeError), the mask is the non-zero pattern of mask= or else of the
+    amplitude, shape/size/global_mask are read off it, a mask of more than three dimensions is a ValueError"""
+    pl = c['plane']
+    amp, alias, mk = pl['amp'], c['alias'], pl['mask']
+    used = amp
+    if alias is not None:
+        if 's' in amp:
+            if cnum(amp['s']) != 1:
+                return None if impl.get('err') == 'TypeError' else \
+                    f'amplitude={cnum(amp["s"])} together with amp=: {impl.get("err", "a plane was built")}, expected TypeError'
+        elif len(amp['a']) * len(amp['a'][0]) > 1:
+            return None if 'err' in impl else 'an amplitude array together with amp= was accepted'
+        elif cnum(amp['a'][0][0]) != 1:
+            return None if impl.get('err') == 'TypeError' else \
+                f'amplitude=[[{cnum(amp["a"][0][0])}]] together with amp=: {impl.get("err", "a plane was built")}, expected TypeError'
+        used = alias
+    if mk is not None and 'r4' in mk:
+        return None if impl.get('err') == 'ValueError' else \
+            f'a mask with {len(mk["r4"])} dimensions: {impl.get("err", "a plane was built")}, expected ValueError'
+    # the non-zero pattern
+    if mk is None:
+        src = used
+        layers = None if 's' in src else [src['a']]
+        rank = 0 if 's' in src else 2
+        val0 = src.get('s')
+    elif 's' in mk:
+        layers, rank, val0 = None, 0, mk['s']
+    elif 'a' in mk:
+        layers, rank = [mk['a']], 2
+    else:
+        layers, rank = mk['c'], 3
+    if layers is not None:
+        pat = [[[1 if is_nz(v) else 0 for v in row] for row in ly] for ly in layers]
+        if any(sum(map(sum, ly)) == 0 for ly in pat):
+            return None          # a mask (or segment) without a set sample: outside the property (no aperture)
+    if 'err' in impl:
+        return f'a legal constructor call raised {impl["err"]}'
+    want_amp = {'v': cnum(used['s'])} if 's' in used else {'arr': [[cnum(v) for v in row] for row in used['a']]}
+    m = cmp_view(impl['amp'], want_amp, 0.0, 'plane.amplitude vs the value given')
+    if m:
+        return m
+    if not impl['mask']['binary']:
+        return 'plane.mask holds values other than 0 and 1'
+    if impl['mask']['rank'] != rank:
+        return f'plane.mask has {impl["mask"]["rank"]} dimensions, expected {rank}'
+    if layers is None:
+        want = 1 if is_nz(val0) else 0
+        if impl['mask']['vals'] != want or impl['shape'] is not None or impl['size'] != 1 or impl['gmask'] != want:
+            return (f'0-d mask: mask {impl["mask"]["vals"]}, shape {impl["shape"]}, size {impl["size"]}, global_mask '
+                    f'{impl["gmask"]}; expected {want}, (), 1, {want}')
+    else:
+        n, m_ = len(pat[0]), len(pat[0][0])
+        if impl['mask']['vals'] != (pat[0] if rank == 2 else pat):
+            return f'plane.mask is not the non-zero pattern of the {"mask" if mk is not None else "amplitude"} given'
+        if impl['shape'] != [n, m_]:
+            return f'plane.shape is {impl["shape"]}, expected {[n, m_]}'
+        if impl['size'] != (1 if rank == 2 else len(pat)):
+            return f'plane.size is {impl["size"]}, expected {1 if rank == 2 else len(pat)}'
+        gm = [[sum(ly[i][j] for ly in pat) for j in range(m_)] for i in range(n)]
+        if impl['gm_imag'] or impl['gmask'] != gm:
+            return f'plane.global_mask is {impl["gmask"]}, expected the sum of the segment masks {gm}'
+    px = pix_pair(pl['pix'])
+    got = None if impl['pix'] is None else (float(impl['pix'][0]), float(impl['pix'][1]))
+    if got != px:
+        return f'plane.pixelscale is {got}, expected {px}'
+    if pl['kind'] == 'Pupil':
+        want = None if pl['focal'] is None else C.frac(float(F(pl['focal'])))
+        if impl['focal'] is None or impl['focal']['f'] != want:
+            return f'pupil.focal_length is {impl["focal"]}, expected {want}'
+    if impl['ntilt'] != 0:
+        return 'a new plane starts with a non-empty tilt list'
+    return None
+
+
+def oracle_wctor(c, impl):
+    t = c['tilt']
+    if t is not None and len(t) != 2:
+        return None if impl.get('err') == 'ValueError' else \
+            f'a tilt argument of {len(t)} entries: {impl.get("err", "a wavefront was built")}, expected ValueError'
+    if 'err' in impl:
+        return f'a legal Wavefront(...) call raised {impl["err"]}'
+    if impl['lam'] != F(c['lam']):
+        return f'wavelength {impl["lam"]}, expected {F(c["lam"])}'
+    px = pix_pair(c['wpix'])
+    got = None if impl['pix'] is None else (float(impl['pix'][0]), float(impl['pix'][1]))
+    if got != px:
+        return f'pixelscale {got}, expected {px}'
+    want = 'inf' if (c['wfocal'] is None or F(c['wfocal']) == 0) else C.frac(float(F(c['wfocal'])))
+    if impl['focal'] != want:
+        return f'focal_length {impl["focal"]}, expected {want}'
+    if impl['shape'] is not None or len(impl['fields']) != 1:
+        return f'a new wavefront has shape {impl["shape"]} and {len(impl["fields"])} fields, expected () and one'
+    # Tilt(x=rx, y=ry) keeps the angle about x in .y and the angle about y in .x
+    wt = [] if t is None else [[C.frac(float(F(t[1]))), C.frac(float(F(t[0])))]]
+    if impl['fields'][0]['tilt'] != wt:
+        return f'tilt list of the plane wave is {impl["fields"][0]["tilt"]}, expected {wt}'
+    if impl['field'].get('v') != 1 or impl['intensity'].get('v') != 1:
+        return f'a new wavefront is not the unit plane wave: field {impl["field"]}, intensity {impl["intensity"]}'
+    return None
+
+
 def oracle(c, impl):
     if isinstance(impl, dict) and impl.get('memory'):
-        return impl['memory'] + ' by the multiplications'
+        return impl['memory'] + (' by the multiplications' if c['op'] not in ('ctor', 'wctor') else ' by the constructor')
+    if c['op'] == 'ctor':
+        return oracle_ctor(c, impl)
+    if c['op'] == 'wctor':
+        return oracle_wctor(c, impl)
     if c['op'] == 'phist':
         return oracle_phist(c, impl)
     if c['op'] == 'views':
